@@ -24,6 +24,7 @@ from cirq.ops import (
     common_gates,
     dense_pauli_string as dps,
     gate_operation,
+    global_phase_op,
     op_tree,
     pauli_gates,
     pauli_string as ps,
@@ -363,9 +364,15 @@ class PauliStringPhasorGate(raw_types.Gate):
     def _decompose_(self, qubits: Sequence[cirq.Qid]) -> Iterator[cirq.OP_TREE]:
         if len(self.dense_pauli_string) <= 0:
             return
-        any_qubit = qubits[0]
+        # Qubits on which the Pauli string is the identity take no part in its parity.
+        active = [q for q, p in zip(qubits, self.dense_pauli_string.pauli_mask) if p]
+        if not active:
+            if self.exponent_pos:
+                yield global_phase_op.GlobalPhaseGate(1j ** (2 * self.exponent_pos)).on()
+            return
+        any_qubit = active[0]
         to_z_ops = op_tree.freeze_op_tree(self._to_z_basis_ops(qubits))
-        xor_decomp = tuple(xor_nonlocal_decompose(qubits, any_qubit))
+        xor_decomp = tuple(xor_nonlocal_decompose(active, any_qubit))
         yield to_z_ops
         yield xor_decomp
 
